@@ -32,12 +32,26 @@ def rat(r):
     return None if r[1] == 0 else r[0] / r[1]
 
 
-def kwargs_of(cfg):
+# (dtype, affine embedding a*x + b): the embeddings are the model's Affs (AffineInvariant) and the identity; the
+# narrow integer ones make the data span more than the dtype's positive range
+EMB_INT = [("float64", (1, 0)), ("float32", (1, 0)), ("int32", (1, 0)), ("int64", (1, 0)), ("int8", (50, -100)),
+           ("int16", (15000, -30000)), ("uint8", (60, 0)), ("uint16", (15000, 0)), ("float64", (3, 7)), ("int32", (3, 7)),
+           ("float32", (50, -100)), ("int64", (15000, -30000))]
+EMB_TOK = [("float64", (1, 0)), ("float32", (1, 0)), ("float64", (3, 7)), ("float32", (50, -100)), ("float64", (15000, -30000))]
+
+
+def kwargs_of(cfg, af=(1, 0)):
+    a, b = af
     t = cfg["t"]
+
+    def pos(r):                      # a position (limit, centre) in the embedded unit
+        v = rat(r)
+        return None if v is None else a * v + b
     if t == "manual":
-        return dict(interval_type="manual", vmin=rat(cfg["lo"]), vmax=rat(cfg["hi"]))
+        return dict(interval_type="manual", vmin=pos(cfg["lo"]), vmax=pos(cfg["hi"]))
     if t == "centered":
-        return dict(interval_type="centered", vcenter=rat(cfg["c"]), half_range=rat(cfg["h2"]))
+        h = rat(cfg["h2"])
+        return dict(interval_type="centered", vcenter=pos(cfg["c"]), half_range=None if h is None else a * h)
     return dict(interval_type="quantile", lower_quantile=rat(cfg["ql"]), upper_quantile=rat(cfg["qu"]))
 
 
@@ -47,15 +61,16 @@ def run_case(arg):
     from quantem.core.visualization.custom_normalizations import (
         NORMALIZATION_PRESETS, CustomNormalization, _resolve_normalization)
     out = []
-    vals = [float("nan") if x == NAN else float("inf") if x == PINF else float("-inf") if x == NINF else float(x)
-            for x in case["data"]]
     has_tok = any(x >= 100 for x in case["data"])
+    emb = (EMB_TOK if has_tok else EMB_INT)
+    dtn, af = emb[idx % len(emb)]
+    dt = np.dtype(dtn)
+    vals = [float("nan") if x == NAN else float("inf") if x == PINF else float("-inf") if x == NINF else float(af[0] * x + af[1])
+            for x in case["data"]]
     want_u = [rat(o["u"]) for o in case["out"]]
     want_mask = [o["k"] == "masked" for o in case["out"]]
-    kw = kwargs_of(case["cfg"])
-    tag = f"data={case['data']} cfg={case['cfg']['t']} {kw}"
-    dts = [np.float64, np.float32] + ([] if has_tok else [np.int32, np.int64])
-    dt = dts[idx % len(dts)]
+    kw = kwargs_of(case["cfg"], af)
+    tag = f"data={case['data']} as {dtn} {af[0]}*x+{af[1]} cfg={case['cfg']['t']} {kw}"
     shape = (len(vals),) if idx % 3 else ((2, len(vals) // 2) if len(vals) % 2 == 0 else (len(vals), 1))
 
     def check_out(res, stretch, how, linear):
@@ -93,7 +108,7 @@ def run_case(arg):
                     out.append((f"C20:{st}:{'mask' if 'mask' in msg else 'order' if 'monotone' in msg or 'order' in msg else 'value'}", f"{tag}: {msg}"))
                     break
                 if how == "data=":
-                    lo, hi = rat(case["lo"]), rat(case["hi"])
+                    lo, hi = af[0] * rat(case["lo"]) + af[1], af[0] * rat(case["hi"]) + af[1]
                     if abs(float(norm.vmin) - lo) > 1e-6 * (1 + abs(lo)) or abs(float(norm.vmax) - hi) > 1e-6 * (1 + abs(hi)):
                         out.append(("C20:limits", f"{tag}: limits ({norm.vmin}, {norm.vmax}) != exact ({lo}, {hi})"))
                         break
@@ -151,7 +166,8 @@ def check(rep, tier, seed):
     rep.assume("arrays with at least two distinct finite values and intervals with lo < hi (as the property states)",
                "a stretch is abstracted in the model to a strictly increasing bijection of [0,1]; that each concrete "
                "stretch IS one, and that stretch o inverse = id, is checked numerically on a 41-point grid",
-               "data values are small integers so that quantile limits are exact rationals")
+               "data values are small integers (and their affine images in narrow integer dtypes) so that quantile limits "
+               "are exact rationals")
     r = tlc.run_tlc("NormOrder", "NormMC.cfg", spec_dir=SPEC, workers=16, timeout=900)
     rep.add_tlc(r, "NormOrder: Range / Monotone / EndPoints / NaNMasked (arrays up to length 4)")
     tlc.expect_clean(r, "NormMC")
@@ -188,7 +204,8 @@ def check(rep, tier, seed):
         rep.mismatch(key, msg, {"message": msg})
     rule = ("cases are the (array, interval configuration) initial states of NormOrder exported by TLC with exact "
             "limits and per-element outputs; each is run for 2 (quick) / 8 stretch configurations, with limits taken "
-            "at call time and from data=, in float64/float32/int32/int64 and 1-D/2-D shapes; presets on every fifth "
+            "at call time and from data=, stored as float64/float32/int8/int16/int32/int64/uint8/uint16 through the model's affine "
+            "embeddings (narrow integer ranges exceed the dtype's positive range), 1-D/2-D shapes; presets on every fifth "
             "case; distinct by (array, configuration)")
     return rule, False
 
